@@ -114,7 +114,7 @@ func runProperty(prop, tier, only string, seed, workers int, verbose, noReplay b
 	if only != "" {
 		var f []HarnessSpec
 		for _, s := range specs {
-			if strings.Contains(s.Func, only) {
+			if strings.Contains(s.Func+":"+s.Asm+":"+s.T3, only) {
 				f = append(f, s)
 			}
 		}
